@@ -303,6 +303,24 @@ def check_limits(obj, label, st, mx, viol, witness, budget=None):
                          "witness": witness})
 
 
+def check_limits_after_change(obj, elements, label, st, mx, viol, witness):
+    """History clause: a reported limit must follow the CURRENT values.  After the limits of `obj` were queried once,
+    change one parameter of one (nested) element through the public setter and query again on the SAME object."""
+    for e in elements[:3]:
+        for k, v in e.get_values().items():
+            trial = v * 1.7 if v != 0 else 0.5
+            if k in G.EXPONENT_KEYS:
+                trial = 0.5 if abs(v - 0.5) > 0.05 else 0.7
+            if not (e.get_lower_limit(k) <= trial <= e.get_upper_limit(k)):
+                continue
+            e.set_values(k, trial)
+            st["limit_requery_after_set_values"] = st.get("limit_requery_after_set_values", 0) + 1
+            w2 = dict(witness)
+            w2["changed"] = f"{e.get_symbol()}.{k}: {v} -> {trial}"
+            check_limits(obj, label + f" [after {e.get_symbol()}.set_values({k}={trial:g})]", st, mx, viol, w2)
+            return
+
+
 # ------------------------------------------------------------------------------------------------
 # whole circuits
 # ------------------------------------------------------------------------------------------------
@@ -482,6 +500,8 @@ def run_case(case):
             check_circuit(c, f"Tlm[{case['cfg']}] {text}", [0.013, 1.7, 240.0, 3.1e4], st, mx, viol, w, expect_refusal="notimpl" if both_short else None)
             if j == 0 and (case["cfg"]["Z_A"], case["cfg"]["Z_B"]) in (("open", "open"), ("short", "open"), ("fin", "open")):
                 check_limits(c, "Tlm " + text, st, mx, viol, w)
+                nested = [e for e in c.generate_element_identifiers(running=True) if e.get_symbol() == "R"]
+                check_limits_after_change(c, nested, "Tlm " + text, st, mx, viol, w)
             evals += 1
             keys.append(text)
             sample = sample or {"cdc": text}
@@ -507,6 +527,7 @@ def run_case(case):
             slow_decay = any((0.97 < G.dec(e["p"][k][0]) < 1.0 or G.dec(e["p"][k][0]) < 0.03) for e in G.iter_elements(t) for k in e["p"] if k in G.EXPONENT_KEYS)
             if j == 0 and n <= 3 and not slow_decay:
                 check_limits(c, "circuit " + G.brief(G.nf(t)), st, mx, viol, w)
+                check_limits_after_change(c, [e for e in c.generate_element_identifiers(running=True)][::-1], "circuit " + G.brief(G.nf(t)), st, mx, viol, w)
             evals += 1
             keys.append(text)
             sample = sample or {"cdc": text[:300]}
@@ -525,6 +546,14 @@ def run_case(case):
                         continue
                 w = {"class": sym, "values": e.get_values()}
                 check_limits(e, f"{sym} {e.get_values()}", st, mx, viol, w)
+                if j == 0:
+                    # the same element inside a series connection and inside a circuit: re-query after a nested change
+                    from pyimpspec import Circuit, Series, Resistor
+
+                    inner = cls()
+                    comp = Circuit(Series([Resistor(R=7.0), inner]))
+                    check_limits(comp, f"{sym} in-series", st, mx, viol, w)
+                    check_limits_after_change(comp, [inner, comp.get_elements()[0]], f"{sym} in-series", st, mx, viol, w)
                 evals += 1
                 keys.append(("limit", sym, j))
         sample = {"limits_for_class": case["sym"]}
@@ -545,4 +574,6 @@ def finalize(agg):
         inc.append("whole-circuit comparison hardly exercised")
     if s.get("limit_zero_checked", 0) + s.get("limit_inf_checked", 0) < 10:
         inc.append("limit clause hardly exercised")
+    if s.get("limit_requery_after_set_values", 0) < 5:
+        inc.append("limit re-query after a nested change hardly exercised")
     return {"viol": [], "inconclusive": inc[:5]}
